@@ -198,6 +198,18 @@ def scrape_consts(report):
         for lst in re.findall(r'map_parser\(\w+, &\[(.*?)\]\)', src(rel), re.S):
             mp.append((rel.split("/")[-1], [x.strip().replace("Self::", "").replace("::parse", "") for x in lst.split(",") if x.strip()]))
     vals["MAP_PARSERS"] = mp
+    # which operand kinds and operations each item kind's `calculate` names (compiler/*.rs)
+    co = []
+    for f in ("number", "percent", "money", "duration", "time", "date", "date_time", "dynamic_type"):
+        m = re.search(r'fn calculate\(.*?\n    \}\n', src("src/compiler/%s.rs" % f), re.S)
+        body = m.group(0) if m else ""
+        kinds = []
+        for k in re.findall(r'"([A-Z_]+)"', body):
+            if k not in kinds:
+                kinds.append(k)
+        opsn = sorted(set(re.findall(r'OperationType::(\w+)', body)))
+        co.append((f, kinds, opsn))
+    vals["CALC_OPERANDS"] = co
     report["scrape_stale"] = stale
     return vals
 
@@ -233,6 +245,8 @@ def gen_rust_consts(vals):
     L.append("Definition RULE_REGISTRY : list (str * str) := %s." % clist("(%s, %s)" % (cstr(a), cstr(b)) for a, b in vals["RULE_REGISTRY"]))
     L.append("Definition PARSE_LEVELS : list (str * str * list N) := %s." %
              clist("(%s, %s, %s)" % (cstr(a), cstr(b), clist(cN(ord(o)) for o in ops)) for a, b, ops in vals["PARSE_LEVELS"]))
+    L.append("Definition CALC_OPERANDS : list (str * list str * list str) := %s." %
+             clist("(%s, %s, %s)" % (cstr(f), clist(cstr(x) for x in ks), clist(cstr(x) for x in os_)) for f, ks, os_ in vals["CALC_OPERANDS"]))
     L.append("Definition MAP_PARSERS : list (str * list str) := %s." %
              clist("(%s, %s)" % (cstr(f), clist(cstr(x) for x in xs)) for f, xs in vals["MAP_PARSERS"]))
     return "\n".join(L) + "\n"
